@@ -200,6 +200,8 @@ def run(tier: str, seed: int) -> int:
                 replay_states(v, res.dump_path, judge_state, {"fit": fit})
         finally:
             cleanup(res)
+    from .connection_ext import run_extension
+    run_extension(v, tier)         # coverage beyond the listed properties (drift only)
     v.evaluations = v.replayed
     v.extra["rule"] = ("every circuit grown by the builder of specs/Circuit.tla; non-trivial = complete circuits; each is built through the API "
                        "and every identifier/name consumer is compared with the model, element by element via paths")
